@@ -226,6 +226,23 @@ func c17Build(sp c17Spec, nrec int) *c17Built {
 	return b
 }
 
+// c17LoneHeaderCut: is `cut=k` a cut exactly between two members whose text so far ends with a lone header character
+// (`\n>` / `\n@`)?  Such a file is a complete, valid compressed file of a truncated text, on which FastaChunkParser dies
+// of an index panic in its own goroutine (`start[1]` on the one-byte chunk `>`: a crash report, C01's domain, that the
+// harness cannot recover from): these cuts are not generated.
+func c17LoneHeaderCut(sp c17Spec, nrec int, b *c17Built, k int) bool {
+	data := c17FormatData(sp.format, nrec)
+	pre := 0
+	for m := 1; m < len(b.offs); m++ {
+		pre += b.sizes[m-1]
+		if b.offs[m] == k && pre > 0 && pre <= len(data) {
+			c := data[pre-1]
+			return (c == '>' || c == '@') && (pre == 1 || data[pre-2] == '\n')
+		}
+	}
+	return false
+}
+
 // c17ApplyDamage: cut=K | flip=B | byte=K (byte K xor 0xff) | tail=N | none, on a copy of z
 func c17ApplyDamage(z []byte, d string) ([]byte, string, bool) {
 	z = append([]byte{}, z...)
@@ -391,6 +408,10 @@ func c17GenMulti(rng *rand.Rand, tier string, emit func(string)) {
 		}
 		b := c17Build(sp, nrec)
 		line := func(d string) {
+			if k, is := c17KV(d, "cut"); is && c17LoneHeaderCut(sp, nrec, b, k) {
+				stat("skipped:lone-header-cut")
+				return
+			}
 			if op == "file" {
 				emit(fmt.Sprintf("file %s %s %s n=0 err=eof", spec, dataspec, d))
 			} else {
@@ -480,6 +501,21 @@ func c17GenMulti(rng *rand.Rand, tier string, emit func(string)) {
 			// (zlib stops silently at a member whose magic number is damaged: known finding D22z; a damaged deflate block is reported)
 			emit(fmt.Sprintf("cmd obiconvert %s gz+r3 nrec=6 byte=%d", how, b3.offs[1]+20))
 		}
+	}
+	for _, codec := range []string{"bz2", "xz", "zst"} {
+		b2 := c17Build(c17Spec{codec: codec, format: "fasta", layout: "r2"}, 4)
+		emit(fmt.Sprintf("cmd obiconvert file %s+r2 nrec=4 byte=%d", codec, b2.offs[1]+rng.Intn(3)))
+	}
+	// files larger than the 1 MiB peek of the format guesser: the error reported at the boundary of member 2 (or inside
+	// member 2) is met by the chunk reader
+	big := c17Build(c17Spec{codec: "gz", format: "fasta", layout: "r2"}, 26000)
+	emit(fmt.Sprintf("file gz+r2 nrec=26000 flip=%d n=0 err=eof", big.offs[1]*8+rng.Intn(24)))
+	emit(fmt.Sprintf("file gz+r2 nrec=26000 cut=%d n=0 err=eof", len(big.z)-1-rng.Intn(8)))
+	if thorough {
+		emit(fmt.Sprintf("file gz+r2 nrec=26000 byte=%d n=0 err=eof", big.offs[1]+2))
+		emit(fmt.Sprintf("file gz+r2 nrec=26000 cut=%d n=0 err=eof", big.offs[1]+1+rng.Intn(17)))
+		emit("file gz+r2 nrec=26000 none n=0 err=eof")
+		emit(fmt.Sprintf("file gz+r2 nrec=26000 tail=%d n=0 err=eof", 1+rng.Intn(20)))
 	}
 	// (b) every truncation point of the other formats
 	for _, format := range c17Formats[1:] {
